@@ -34,6 +34,11 @@ class RemoteState(dict):
     class context(dict):
         def __init__(self, *args, **kwargs):
             super().__init__(*args, **kwargs)
+            # nested patches get modified while the objects they address are being restored (see `child_restored`),
+            # do not do that to the dictionaries of the caller
+            for key, value in self.items():
+                if isinstance(value, dict):
+                    self[key] = RemoteState.copy_patches(value)
             assert not hasattr(RemoteState._active_contexts, 'ctxs')
             RemoteState._active_contexts.stack = []
             RemoteState._active_contexts.iter = -1
@@ -55,6 +60,10 @@ class RemoteState(dict):
 
     def __init__(self, *args, **kwargs):
         super().__init__(*args, **kwargs)
+
+    @staticmethod
+    def copy_patches(patches):
+        return { key: (RemoteState.copy_patches(value) if isinstance(value, dict) else value) for key, value in patches.items() }
 
     @classmethod
     def patches_iter(cls):
